@@ -6,7 +6,7 @@
    it (entry durable iff its parent was synced while it existed; contents = the
    contents at the last data sync; a background-sync coin is a data sync). *)
 From TV.Lib Require Import Base.
-From TV.Fs Require Import FsImpl FsSpec FsSafe FsDurable Durable C10_proofs C07_proofs.
+From TV.Fs Require Import FsImpl FsSpec FsSafe FsDurable FsKnown Durable Known C10_proofs C07_proofs.
 Open Scope N_scope.
 
 (* Crash image: for EVERY history with crashes at arbitrary points and arbitrarily
@@ -26,15 +26,34 @@ Open Scope N_scope.
    bytes of each write issued since then (k = the draw of that write; nothing
    with bs = 0); unsynced creates, truncations and removals are rolled back.
    _partial: create_dir_all / remove_dir_all and successful renames of regular
-   files are not covered (FsSafe.KRenameFile).  The renames the crate gets right
-   (data-synced file, left alone until a directory sync flushes the rename; across
-   directories only with the new parent synced first) are asserted by the oracle on
+   files are not covered by this statement (FsSafe.KRenameFile).  The renames within one
+   directory that the crate gets right are covered by c07_crash_image_renames_partial below;
+   those across directories (new parent synced first) are asserted by the oracle on
    generated histories (c07_rename_cross_clean_example is one of them); the others
    are the narrow known classes RenameFile / RenameCrossDir. *)
 Theorem c07_crash_image_partial : forall bs l,
   forallb c07_op l = true -> dsafe bs l = true ->
   Forall2 obs_ok (snd (drun (init_dworld bs) l)) (snd (run (init_world bs) l)).
 Proof. exact crash_image_lemma. Qed.
+
+(* Crash image with renames: the same statement for the histories that meet NO KNOWN CLASS - FsKnown.kclasses,
+   the narrow classes of known_findings.txt as gen/fam_fs.py decides them (RootOp, RenameSelf, RenameDir,
+   StaleHandle, RenameFile (a)-(f), RenameCrossDir, Recreate, KindSwap) - over the alphabet that also has the
+   renames of regular files within one directory, onto a fresh name or over an existing file, followed by
+   anything the classes allow: reads and data syncs through the new name, unlink of the new name, further
+   renames of other files, directory syncs in any order, crashes at any point.  A rename not yet flushed by a
+   sync of the directory is rolled back by a crash; flushed, it is durable with the contents of the file's
+   last data sync, and a replaced file is durably gone.
+   _partial - what [ksafe] / [c07r_op] exclude beyond the known classes (FsKnown.v, end of file):
+   create_dir_all / remove_dir_all; renames between two different directories (covered by the oracle and
+   the narrow class RenameCrossDir only); any creation of a file at a name a file left since the last
+   crash (FsSafe.KRecreate; the known finding Recreate is narrower, the re-creations outside it are asserted
+   by the oracle only); a rename onto a name a directory was removed from since the last crash; a crash on
+   a dangling durable subtree. *)
+Theorem c07_crash_image_renames_partial : forall bs l,
+  forallb c07r_op l = true -> ksafe bs l = true ->
+  Forall2 obs_ok (snd (drun (init_dworld bs) l)) (snd (run (init_world bs) l)).
+Proof. exact crash_image_known. Qed.
 
 (* Torn writes: what a crash with block size bs > 0 does to the durable contents
    (the definition read back): the contents of the last data sync, overlaid in
@@ -123,7 +142,20 @@ Example c07_torn_nonvacuous :
   dimpl_out 2 hd_torn 7 = OBytes [65; 88; 89; 68; 69] /\ dspec_out 2 hd_torn 7 = OBytes [65; 88; 89; 68; 69].
 Proof. vm_compute. repeat split; reflexivity. Qed.
 
+(* Non-vacuity of the rename-inclusive theorem: a rename within a directory that is flushed and survives the
+   crash under the new name only; a rename over an existing file that a crash before any directory sync
+   rolls back (both files are back with their synced contents). *)
+Example c07_renames_nonvacuous :
+  forallb c07r_op hd_rename_flushed = true /\ ksafe 0 hd_rename_flushed = true /\
+  snd (run (init_world 0) hd_rename_flushed) =
+    [OOk; OOk; OOk; ONum 2; OOk; OOk; OOk; OOk; OFile 2; OOk; OOk; OBytes [65; 66]; OErr ENOENT] /\
+  forallb c07r_op hd_rename_over_rolled_back = true /\ ksafe 0 hd_rename_over_rolled_back = true /\
+  snd (run (init_world 0) hd_rename_over_rolled_back) =
+    [OOk; ONum 1; OOk; OOk; OOk; ONum 2; OOk; OOk; OOk; OOk; OBytes [65]; ONames [3]; OOk; OBytes [66; 67]; OBytes [65]; OOk].
+Proof. exact renames_nonvacuous_lemma. Qed.
+
 Print Assumptions c07_crash_image_partial.
+Print Assumptions c07_crash_image_renames_partial.
 Print Assumptions c07_torn.
 Print Assumptions c07_synced_never_lost.
 Print Assumptions c07_unsynced_entry_gone.
@@ -136,3 +168,4 @@ Print Assumptions c07_recreate_refuted.
 Print Assumptions c07_kind_swap_refuted.
 Print Assumptions c07_nonvacuous.
 Print Assumptions c07_torn_nonvacuous.
+Print Assumptions c07_renames_nonvacuous.
